@@ -140,6 +140,10 @@ func c09Jobs(tier string) []c09job {
 	for _, g := range gram.L1(tier == "thorough") {
 		jobs = append(jobs, c09job{Name: "L1", Text: g.Text(), OutForm: "sub", HasSyntax: 0})
 	}
+	// (1b) long and deeply nested shapes
+	for _, sd := range gram.StressSeeds() {
+		jobs = append(jobs, c09job{Name: "stress-" + sd.Name, Text: sd.Text, Flags: []string{"-a"}, OutForm: "sub", HasSyntax: hasSyntaxPart(sd.Text), Compile: true})
+	}
 	// (2) seeds x flag subsets x output forms
 	forms := []string{"sub", "deep", "abs", "p"}
 	for si, s := range gram.Seeds() {
@@ -232,7 +236,7 @@ func init() {
 			}
 			if res.Exit != 0 {
 				r.Add("exit_nonzero", 1)
-				if j.Compile && strings.HasPrefix(j.Name, "seed-") {
+				if j.Compile && (strings.HasPrefix(j.Name, "seed-") || strings.HasPrefix(j.Name, "stress-")) {
 					r.Violate("c09", key, fmt.Sprintf("%s %v: well-formed seed refused with exit status %d: %s", j.Name, args, res.Exit, oneLine(res.Stdout+res.Stderr)), cs)
 				}
 				return
@@ -347,7 +351,7 @@ func init() {
 		}
 		r.Set("cli_cross_checked", sw.pool.CrossChecked.Load())
 		r.Set("watchdog_seconds", gen.Horizon.Seconds())
-		r.Set("rule", "real generator under a watchdog (20 s against a normal 0.03 s; 6 GB) on: every pattern shape of L1; seed grammars x all 64 flag subsets (3 seeds; the 8 file-affecting combinations for the others) x four output forms (-o sub, -o sub/deeper, -o $PWD/sub, -p only); hostile spellings (names, string literals over all ASCII punctuation, character literals, action texts, headers); every token-level mutant and every byte-level mutant of seeds. Every run must terminate; exit 0 => every package the configuration calls for is present (token, util; lexer unless -no_lexer, which must then be absent; parser and errors iff there is a syntax part), no emitted Go file empty; a deterministic selection of distinct exit-0 outputs whose header/actions are valid Go is compiled with go build; distinct = exit-0 runs with complete output")
+		r.Set("rule", "real generator under a watchdog (20 s against a normal 0.03 s; 6 GB) on: every pattern shape of L1; long and deeply nested stress shapes (20 consecutive nullable multi-alternative groups, nesting depth 15, 60 alternatives, 40-term sequences, 30-symbol bodies, a 12-level nullable chain); seed grammars x all 64 flag subsets (3 seeds; the 8 file-affecting combinations for the others) x four output forms (-o sub, -o sub/deeper, -o $PWD/sub, -p only); hostile spellings (names, string literals over all ASCII punctuation, character literals, action texts, headers); every token-level mutant and every byte-level mutant of seeds. Every run must terminate; exit 0 => every package the configuration calls for is present (token, util; lexer unless -no_lexer, which must then be absent; parser and errors iff there is a syntax part), no emitted Go file empty; a deterministic selection of distinct exit-0 outputs whose header/actions are valid Go is compiled with go build; distinct = exit-0 runs with complete output")
 		r.Assumption("non-termination is observed as exceeding the watchdog (600x the normal running time), in-process and again through the real CLI")
 		return r.Finish(nil)
 	}
